@@ -2,8 +2,8 @@
     from the resulting store yields a tree with the same entries, size, height and branch factor,
     for every residency mix of the persisted tree, provided the element encoding round-trips, sizes
     fit 64 bits and no two different byte strings written share a name.  Lemma file. *)
-From Coq Require Import List NArith ZArith Lia Bool.
-From Mast Require Import Prim Key Tree KeyOrder Codec CodecRT NameLen Store Erase Build Spec Canon Links Level Inv Persist.
+From Coq Require Import List NArith ZArith Lia Bool Sorted.
+From Mast Require Import Prim Key Tree KeyOrder Codec CodecRT NameLen Store Diff World Erase Build Spec Canon Links Level Inv Persist Hist.
 Import ListNotations.
 
 Opaque name_of blake2b_256 b64url crc64 uint_layer_fuel.
@@ -315,4 +315,187 @@ Proof.
   cbn [store_node n_dirty n_src n_l0 n_es].
   destruct d; [exact Hbody|]. destruct sr as [h|]; [|exact Hbody].
   apply okt_ret. intros _. cbn [apply_stores fst snd]. exact (allh_clean _ _ _ _ h Hall eq_refl eq_refl).
+Qed.
+
+(** * LoadMast of a stored canonical version *)
+
+Lemma keys_ok_of bf h : forall (es : list (entry key val)) last,
+  Forall (fun e => h <= klayer bf (ekey _ _ e)) es ->
+  StronglySorted (fun a b => kcmp a b = Lt) (match last with Some p => p :: map (ekey _ _) es | None => map (ekey _ _) es end) ->
+  keys_ok bf h last es = true.
+Proof.
+  induction es as [|e es IH]; intros last Hl Hs; [reflexivity|].
+  inversion Hl as [|? ? Hle Hl']; subst. cbn [keys_ok].
+  assert (Hneg : negb (Nat.ltb (klayer bf (ekey _ _ e)) h) = true) by (apply negb_true_iff, Nat.ltb_ge; assumption).
+  rewrite Hneg. destruct last as [p|].
+  - inversion Hs as [|? ? Hs' Hall]; subst. cbn [map] in Hall. inversion Hall as [|? ? Hp _]; subst. rewrite Hp. cbn [andb].
+    apply IH; [exact Hl'|exact Hs'].
+  - cbn [andb]. apply IH; [exact Hl'|exact Hs].
+Qed.
+
+Lemma check_keys_succeeds bf h : forall (es : list (entry key val)) last,
+  keys_ok bf h last es = true -> oks (check_keys bf h last es) (fun _ => True).
+Proof.
+  induction es as [|e es IH]; intros last H; [apply oks_ret; exact I|].
+  cbn [keys_ok] in H. apply andb_true_iff in H. destruct H as [H H3]. apply andb_true_iff in H. destruct H as [H1 H2].
+  cbn [check_keys]. apply (oks_bind _ _ (fun _ => True)).
+  - destruct last as [p|]; [|apply oks_ret; exact I]. apply oks_tick. destruct (kcmp p (ekey _ _ e)); try discriminate. apply oks_ret. exact I.
+  - intros _ _. apply oks_tick. apply negb_true_iff in H2. rewrite H2. apply IH. exact H3.
+Qed.
+
+(* the keys of the top node of a canonical tree are ascending and have layer >= its level *)
+Lemma top_keys_ok bf hh (n : knode) l :
+  erase_n _ _ n = bnode _ _ (klayer bf) hh l -> ssorted key val kcmp l ->
+  keys_ok bf hh None (n_es _ _ n) = true.
+Proof.
+  intros He Hs. destruct (node_inv key val (klayer bf) _ _ _ He) as [_ Hes].
+  assert (Hk : map (ekey _ _) (n_es _ _ n) = map (pkey _ _) (snd (segs key val (klayer bf) hh l))).
+  { rewrite <- (map_map (erase_e key val) (ekey key val)), Hes. unfold mk_es. rewrite map_map. reflexivity. }
+  apply keys_ok_of.
+  - pose proof (segs_layers key val (klayer bf) hh l) as [_ Hp].
+    assert (Hf : Forall (fun k => hh <= klayer bf k) (map (ekey _ _) (n_es _ _ n))).
+    { rewrite Hk, Forall_map. eapply Forall_impl; [|exact Hp]. intros p [Hp1 _]. exact Hp1. }
+    rewrite Forall_map in Hf. exact Hf.
+  - rewrite Hk. clear -Hs.
+    (* pivots of a sorted list are sorted *)
+    induction l as [|[k v] r IH]; [constructor|].
+    inversion Hs as [|? ? Hr Hall]; subst. specialize (IH Hr). cbn [segs].
+    destruct (segs key val (klayer bf) hh r) as [s0 ps] eqn:E. cbn [snd] in IH.
+    destruct (Nat.leb hh (klayer bf k)); cbn [snd map]; [|exact IH].
+    constructor; [exact IH|]. rewrite Forall_map. rewrite Forall_forall. intros p Hp.
+    assert (Hin : In (pkey _ _ p, pval _ _ p) r).
+    { rewrite <- (segs_flat key val (klayer bf) hh r), E. cbn [fst snd]. apply (flat_in key val). right. exists p. split; [exact Hp|left; reflexivity]. }
+    rewrite Forall_forall in Hall. exact (Hall _ Hin).
+Qed.
+
+Lemma hrule_nil_height bf h : hrule key val (klayer bf) bf [] h -> h = 0.
+Proof. intros [[->|[Hl _]] _]; [reflexivity|]. inversion Hl. Qed.
+
+Theorem load_canon s kind bf hh sz h (n : knode) l :
+  sto s kind h n -> erase_n _ _ n = bnode _ _ (klayer bf) hh l -> ssorted key val kcmp l ->
+  sz = N.of_nat (length l) -> (2 <= bf)%N -> hrule key val (klayer bf) bf l hh ->
+  oks (load_mast s kind (Root (Some h) sz hh bf fmt_bin))
+      (fun r => fst r = FBin /\ kcanon bf (snd r) l /\ m_root _ _ (snd r) = LHash h n).
+Proof.
+  intros Hsto He Hs Hsz Hbf Hh. unfold load_mast. cbn [r_fmt r_link r_height r_size r_bf].
+  change (parse_fmt fmt_bin) with (Some FBin). cbv beta iota zeta.
+  rewrite (resolve_sto s kind (S hh) h n Hsto (fits_bnode key val (klayer bf) _ _ _ He)). cbn [load].
+  apply (oks_bind _ _ (fun c => c = n)).
+  - apply (oks_bind _ _ (fun _ => True)); [exists [ELoad h], tt; split; [reflexivity|exact I]|intros; apply oks_ret; reflexivity].
+  - intros c ->. apply (oks_bind _ _ (fun _ => True)); [apply check_keys_succeeds; exact (top_keys_ok bf hh n l He Hs)|].
+    intros _ _. apply oks_ret. cbn [fst snd]. split; [reflexivity|]. split; [|reflexivity].
+    constructor; cbn [m_root m_height m_size m_bf m_grow_after m_shrink_below].
+    + exists n. split; [reflexivity|exact He].
+    + exact Hs.
+    + exact Hsz.
+    + exact Hbf.
+    + cbn [pow_N]. apply N.mul_comm.
+    + reflexivity.
+    + exact Hh.
+    + reflexivity.
+Qed.
+
+Theorem load_canon_empty s kind bf sz hh :
+  sz = 0%N -> hh = 0 -> (2 <= bf)%N ->
+  oks (load_mast s kind (Root None sz hh bf fmt_bin)) (fun r => fst r = FBin /\ kcanon bf (snd r) []).
+Proof.
+  intros -> -> Hbf. unfold load_mast. cbn [r_fmt r_link r_height r_size r_bf]. change (parse_fmt fmt_bin) with (Some FBin). cbv beta iota zeta.
+  cbn [load]. apply (oks_bind _ _ (fun c => c = fresh_node key val)); [apply oks_ret; reflexivity|]. intros c ->.
+  cbn [n_es fresh_node check_keys]. apply (oks_bind _ _ (fun _ => True)); [apply oks_ret; exact I|]. intros _ _.
+  apply oks_ret. cbn [fst snd]. split; [reflexivity|]. cbn [pow_N].
+  exact (empty_canon key val kcmp (klayer bf) bf false Hbf).
+Qed.
+
+(** * persist then load is the identity *)
+Lemma bind_ok_inv {A B} (m : M A) (f : A -> M B) t b :
+  bind m f = (t, Ok b) -> exists t1 a t2, m = (t1, Ok a) /\ f a = (t2, Ok b) /\ t = t1 ++ t2.
+Proof.
+  unfold bind. destruct m as [t1 [a| | |]]; try discriminate. destruct (f a) as [t2 r] eqn:E. intros H. inversion H; subst.
+  exists t1, a, t2. repeat split. exact E.
+Qed.
+
+Lemma nocoll_load s h t : nocoll s (ELoad h :: t) <-> nocoll s t.
+Proof. reflexivity. Qed.
+
+Definition root_allh (s : store) (kind : N) (m : kmast) : Prop :=
+  forall n, root_n _ _ (m_root _ _ m) = Some n -> allh key val (sto s kind) n.
+
+Lemma flush_nonnil s kind bf (m : kmast) l (r : klink) n tl t1 lk m1 :
+  kcanon bf m l -> root_allh s kind m -> list_ok kind l ->
+  m_root _ _ m = r -> root_n _ _ r = Some n -> erase_n _ _ n = bnode _ _ (klayer bf) (m_height _ _ m) l ->
+  load _ _ r = (tl, Ok n) -> (forall s0, apply_stores s0 tl = s0) -> (forall s0 t, nocoll s0 (tl ++ t) -> nocoll s0 t) ->
+  (let* n0 := load _ _ r in
+   if is_empty _ _ n0 then ret (None, m)
+   else let* (h, n') := store_node (S (S (m_height _ _ m))) FBin n0 in
+        ret (Some h, set_root _ _ m (LHash h n') (m_emptied _ _ m))) = (t1, Ok (lk, m1)) ->
+  nocoll s t1 ->
+  oks (load_mast (apply_stores s t1) kind (Root lk (m_size _ _ m1) (m_height _ _ m1) (m_bf _ _ m1) fmt_bin))
+      (fun r => fst r = FBin /\ kcanon bf (snd r) l) /\
+  kcanon bf m1 l /\ root_allh (apply_stores s t1) kind m1.
+Proof.
+  intros C Hall Hlo Eroot Hrn He Hld Htl Hntl Ef Hn.
+  pose proof (cn_bf _ _ _ _ _ _ _ C) as Hbf. pose proof (cn_bfeq _ _ _ _ _ _ _ C) as Hbfe.
+  apply bind_ok_inv in Ef. destruct Ef as (tl' & n0 & t2 & El & Ef & ->).
+  rewrite Hld in El. inversion El; subst tl' n0. clear El.
+  rewrite apply_stores_app, Htl. apply Hntl in Hn.
+  destruct (is_empty _ _ n) eqn:Eem.
+  - unfold ret in Ef. inversion Ef; subst t2 lk m1. clear Ef. cbn [apply_stores].
+    assert (El : l = []) by (apply (is_empty_bnode key val (klayer bf) _ _ _ He); exact Eem). subst l.
+    assert (Hs0 : m_size _ _ m = 0%N) by exact (cn_size _ _ _ _ _ _ _ C).
+    assert (Hh0 : m_height _ _ m = 0).
+    { pose proof (cn_h _ _ _ _ _ _ _ C) as Hh. rewrite Hbfe in Hh. exact (hrule_nil_height bf _ Hh). }
+    split; [|split; [exact C|exact Hall]].
+    rewrite Hbfe. apply load_canon_empty; [exact Hs0|exact Hh0|rewrite <- Hbfe; exact Hbf].
+  - apply bind_ok_inv in Ef. destruct Ef as (t' & [hh n'] & t3 & Est & Er & ->).
+    unfold ret in Er. inversion Er; subst t3 lk m1. clear Er. rewrite app_nil_r in *.
+    assert (Hfits : fits key val (S (S (m_height _ _ m))) n) by (apply fits_mono; exact (fits_bnode key val (klayer bf) _ _ _ He)).
+    assert (Hlist : to_list_n _ _ n = l) by exact (canon_list key val (klayer bf) _ _ _ He).
+    assert (Hsto : sto (apply_stores s t') kind hh n').
+    { refine (store_node_sto kind _ n s Hfits _ _ t' (hh, n') Est Hn).
+      - apply Hall. rewrite Eroot. exact Hrn.
+      - rewrite Hlist. exact Hlo. }
+    assert (Her : erase_n _ _ n' = erase_n _ _ n).
+    { destruct (store_node_erase _ FBin n Hfits) as (t0 & r0 & E0 & H0). rewrite Est in E0. inversion E0; subst. exact H0. }
+    cbn [set_root m_size m_height m_bf m_root].
+    split; [|split].
+    + rewrite Hbfe. eapply oks_weaken; [apply (load_canon _ kind bf _ _ hh n' l Hsto)|intros r0 [A [B _]]; split; assumption].
+      * rewrite Her. exact He.
+      * exact (cn_sorted _ _ _ _ _ _ _ C).
+      * exact (cn_size _ _ _ _ _ _ _ C).
+      * rewrite <- Hbfe. exact Hbf.
+      * pose proof (cn_h _ _ _ _ _ _ _ C) as Hh. rewrite Hbfe in Hh. exact Hh.
+    + eapply canon_set_root; [exact C|reflexivity|]. rewrite Her. exact He.
+    + intros n0 Hn0. cbn [set_root m_root root_n] in Hn0. inversion Hn0; subst. exact (sto_hered _ _ _ _ Hsto).
+Qed.
+
+Theorem persist_then_load s kind bf (m : kmast) l t rt m' :
+  kcanon bf m l -> root_allh s kind m -> list_ok kind l ->
+  make_root FBin m = (t, Ok (rt, m')) -> nocoll s t ->
+  oks (load_mast (apply_stores s t) kind rt) (fun r => fst r = FBin /\ kcanon bf (snd r) l) /\
+  kcanon bf m' l /\ root_allh (apply_stores s t) kind m'.
+Proof.
+  intros C Hall Hlo E Hn.
+  destruct (cn_root _ _ _ _ _ _ _ C) as (n & Hrn & He).
+  pose proof (cn_bf _ _ _ _ _ _ _ C) as Hbf. pose proof (cn_bfeq _ _ _ _ _ _ _ C) as Hbfe.
+  unfold make_root in E. apply bind_ok_inv in E. destruct E as (t1 & [lk m1] & t2 & Ef & Er & ->).
+  unfold ret in Er. inversion Er; subst t2 rt m'. clear Er. rewrite app_nil_r in *.
+  unfold flush in Ef.
+  destruct (m_root _ _ m) as [|c|h c|h] eqn:Eroot.
+  - (* emptied tree *)
+    unfold ret in Ef. inversion Ef; subst t1 lk m1. clear Ef. cbn [apply_stores set_root m_size m_height m_bf].
+    assert (El : l = []) by (apply (root_nil_list key val kcmp (klayer bf) bf m l C Eroot)). subst l.
+    assert (Hs0 : m_size _ _ m = 0%N) by exact (cn_size _ _ _ _ _ _ _ C).
+    assert (Hh0 : m_height _ _ m = 0).
+    { pose proof (cn_h _ _ _ _ _ _ _ C) as Hh. rewrite Hbfe in Hh. exact (hrule_nil_height bf _ Hh). }
+    split; [|split].
+    + rewrite Hbfe. apply load_canon_empty; [exact Hs0|exact Hh0|rewrite <- Hbfe; exact Hbf].
+    + eapply canon_set_root; [exact C|reflexivity|]. cbn [root_n] in Hrn. inversion Hrn; subst. exact He.
+    + intros n0 Hn0. cbn [set_root m_root root_n] in Hn0. inversion Hn0; subst. apply allh_fresh.
+  - cbn [root_n] in Hrn. inversion Hrn; subst c.
+    eapply (flush_nonnil s kind bf m l (LPtr n) n [] t1 lk m1); try eassumption; try reflexivity.
+    + intros s0 t0 H0. exact H0.
+  - cbn [root_n] in Hrn. inversion Hrn; subst c.
+    eapply (flush_nonnil s kind bf m l (LHash h n) n [ELoad h] t1 lk m1); try eassumption; try reflexivity.
+    + intros s0 t0 H0. exact H0.
+  - discriminate.
 Qed.
